@@ -168,8 +168,14 @@ func TestWorker(t *testing.T) {
 		if maxMs > 0 && time.Since(start) > time.Duration(maxMs)*time.Millisecond {
 			break
 		}
-		if n := runtime.NumGoroutine(); n > envInt("VERIF_MAX_GOROUTINES", 20000) {
+		if n := runtime.NumGoroutine(); n > envInt("VERIF_MAX_GOROUTINES", 150000) {
 			out.StoppedEarly = fmt.Sprintf("after %d of %d runs: %d goroutines are alive (left blocked by earlier runs, %d bubbles ended with blocked goroutines)", i, runs, n, leakedBubbles)
+			if outPath != "" {
+				if f, err := os.Create(outPath + ".goroutines"); err == nil {
+					pprof.Lookup("goroutine").WriteTo(f, 1) // aggregated by stack: what is piling up
+					f.Close()
+				}
+			}
 			break
 		}
 		if maxMs == 0 && time.Since(start) > maxWall {
